@@ -59,8 +59,48 @@ def dispatch(ctx):
                  oracle='sibling agreement get_type_name <-> build_type; property statement (core, enumeration, user types)')
     gtn = repo.func(XSD + ':get_type_name')
     bt = repo.func(XSD + ':build_type')
-    named = _kinds_tested(gtn, param_names(gtn, skip_self=False)[0], None)
-    built = _kinds_tested(bt, param_names(bt, skip_self=False)[0], None)
+    from .. import absint as _ai
+
+    def subtype_table(fn):
+        '''{state: returned expression} for the data type being a core type (in / out of the named range), an enumeration, a user type,
+        a structured type'''
+        P_ = param_names(fn, skip_self=False)[0]
+
+        def kind_of(x):
+            m = pm.match('nav_one(%s)._K[17]()' % P_, x) or pm.match('one(%s)._K[17]()' % P_, x)
+            if m:
+                return m['_K']
+            m = pm.match('getattr(nav_one(%s), _K)[17]()' % P_, x) or pm.match('getattr(one(%s), _K)[17]()' % P_, x)
+            if m and isinstance(m['_K'], ast.Constant):
+                return m['_K'].value
+            return None
+
+        def truthy(e, s, tr):
+            k = kind_of(e['_X'])
+            return None if k is None else (k == s['kind'])
+
+        def in_range(e, s, tr):
+            k = kind_of(e['_X'])
+            if k is None:
+                return None
+            return s['in_range']
+        it_ = _ai.Interp(fn, [('_X.Core_Typ in range(1, 6)', in_range), ('_X.Core_Typ in (1, 2, 3, 4, 5)', in_range),
+                              ('1 <= _X.Core_Typ <= 5', in_range), ('1 <= _X.Core_Typ < 6', in_range),
+                              ('_X is not None', truthy), ('_X is None', lambda e, s, tr: (None if truthy(e, s, tr) is None else not truthy(e, s, tr))),
+                              ('_X', truthy)])
+        it_.pure_calls = {'build_core_type', 'build_enum_type', 'build_user_type', 'build_struct_type'}
+        out_ = {}
+        for kind, in_range_ in (('S_CDT', True), ('S_CDT', False), ('S_EDT', True), ('S_UDT', True), ('S_SDT', True)):
+            o, tr = it_.run({'kind': kind, 'in_range': in_range_})
+            v = o.value if o.kind == 'return' else None
+            if isinstance(v, ast.Constant) and v.value is None:
+                v = None
+            out_[(kind, in_range_)] = v
+        return out_
+    nt = subtype_table(gtn)
+    btab = subtype_table(bt)
+    named = dict((k, (src(v), '')) for (k, rng), v in nt.items() if v is not None and rng)
+    built = dict((k, (src(v), '')) for (k, rng), v in btab.items() if v is not None and rng)
     want = {'S_CDT', 'S_EDT', 'S_UDT'}
     r.check(set(named) == want, 'get_type_name names core, enumeration and user types', gtn, construct=XSD + ':get_type_name', key='named',
             msg='get_type_name yields a name for %s; the property lists core, enumeration and user-defined types' % sorted(named))
@@ -68,14 +108,14 @@ def dispatch(ctx):
             msg='build_type declares %s but get_type_name names %s: an attribute could be typed by a simple type that is never emitted'
                 % (sorted(built), sorted(named)))
     for k, (ret, test) in named.items():
-        r.check(ret == 's_dt.Name', 'get_type_name(%s) is the modelled type name' % k, gtn, construct=XSD + ':get_type_name', key='name ' + k,
+        r.check(ret in ('s_dt.Name', 's_dt.name'), 'get_type_name(%s) is the modelled type name' % k, gtn, construct=XSD + ':get_type_name', key='name ' + k,
                 msg='get_type_name returns %s for %s' % (ret, k))
     for k, b in (('S_CDT', 'build_core_type'), ('S_EDT', 'build_enum_type'), ('S_UDT', 'build_user_type')):
         if k in built:
             r.check(built[k][0].startswith(b + '('), '%s is declared by %s' % (k, b), bt, construct=XSD + ':build_type', key='builder ' + k,
                     msg='build_type declares %s with %s' % (k, built[k][0]))
     if 'S_CDT' in named:
-        r.check('Core_Typ in range(1, 6)' in named['S_CDT'][1], 'only core types 1..5 are named', gtn, construct=XSD + ':get_type_name', key='core-range',
+        r.check(nt[('S_CDT', False)] is None, 'only core types 1..5 are named', gtn, construct=XSD + ':get_type_name', key='core-range',
                 msg='get_type_name no longer restricts core types to Core_Typ in range(1, 6)')
     bc = repo.func(XSD + ':build_core_type')
     from .. import absint
@@ -166,10 +206,8 @@ def scope(ctx):
                  any(isinstance(c, ast.Call) and dotted(c.func) == builder for c in ast.walk(n)) for n in ast.walk(fn))
         r.check(ok, 'every %s in scope goes through %s' % (kind, builder), fn, construct=XSD + ':' + fn.name, key='each ' + kind,
                 msg='%s does not apply %s to every selected %s' % (fn.name, builder, kind))
-    ig = repo.func('bridgepoint.ooaofooa:is_global')
-    ok = pm.contains('if one(pe_pe).C_C[8003]():\n    return False', ig) and pm.contains('return is_global(pe_pe)', ig)
-    r.check(ok, 'is_global: not inside a component, recursively through the package hierarchy', ig, construct='bridgepoint.ooaofooa:is_global', key='is_global',
-            msg='is_global no longer rejects elements inside a C_C / recurses through EP_PKG')
+    from . import scope as _scope
+    _scope.globality(r, repo)
 
 
 def emission_loops(ctx):
@@ -322,7 +360,13 @@ def xml(ctx):
     r.check(n_build >= 10, '%d ElementTree construction sites' % n_build, mod.tree.body[0], construct=XSD, key='et-sites',
             msg='only %d ElementTree construction sites left' % n_build)
     mn = repo.func(XSD + ':main')
-    r.check(pm.contains("_S = ET.tostring(schema, 'utf-8')", mn), 'the tree is serialised by ET.tostring', mn, construct=XSD + ':main', key='tostring',
+    from .common import resolve_locals
+    mnn = repo.nfunc(XSD + ':main')
+    written = [resolve_locals(mnn, n.args[0], pure_only=False) for n in ast.walk(mnn)
+               if isinstance(n, ast.Call) and isinstance(n.func, ast.Attribute) and n.func.attr == 'write' and len(n.args) == 1]
+    ok = bool(written) and all(any(isinstance(c, ast.Call) and dotted(c.func) == 'ET.tostring' and c.args and
+                                   pm.match('build_schema(_M, _C)', c.args[0]) is not None for c in ast.walk(w)) for w in written)
+    r.check(ok, 'what main writes is the ET.tostring serialisation of the schema tree', mn, construct=XSD + ':main', key='tostring',
             msg='main does not serialise the schema with ET.tostring')
     bs = repo.func(XSD + ':build_schema')
     r.check(pm.contains("schema.set('xmlns:xs', 'http://www.w3.org/2001/XMLSchema')", bs), 'the xs namespace is declared on the root', bs,
